@@ -95,13 +95,6 @@ def Expr.noFloatMod : Expr → Bool
   | .cmp _ l r => l.noFloatMod && r.noFloatMod
   | _ => true
 
-/-- exclusion N: `not` applied to a real-valued operand — the result is declared float/double -/
-def Expr.noFloatNot : Expr → Bool
-  | .bin _ l r => l.noFloatNot && r.noFloatNot
-  | .un op e => e.noFloatNot && !(op = .not && e.isFloatKind)
-  | .cmp _ l r => l.noFloatNot && r.noFloatNot
-  | _ => true
-
 /-- exclusion B: unary `-` on a bool-typed operand — the result is declared `bool`, −1 is stored as `true` -/
 def Expr.noNegBool : Expr → Bool
   | .bin _ l r => l.noNegBool && r.noNegBool
@@ -128,7 +121,7 @@ def Expr.noBoolArith : Expr → Bool
 def Expr.mustAccept (e : Expr) : Bool := e.opsInScope && e.noBoolArith
 
 /-- outside every defect exclusion -/
-def Expr.noDefect (e : Expr) : Bool := e.noFloatMod && e.noFloatNot && e.noNegBool
+def Expr.noDefect (e : Expr) : Bool := e.noFloatMod && e.noNegBool
 
 /-- `%` is only quantified over non-negative operands: at every `%` node Python's operands satisfy
 `0 ≤ a ∧ 0 < b` (evaluated on the sample) -/
